@@ -232,6 +232,32 @@ def fam_differentiate(ctx, rng):
         ok = ok and e <= 1e-8
     ctx.check(ok and len(out) == 1, "differentiation-analytic", "differentiated series differs from the spectral derivative",
               worst_relative_error=worst, L=L, dt=dt, alpha=alpha, n=n)
+    # displacement -> velocity -> acceleration: what the first pass returned is preprocessed again (a new settings
+    # object with the same taper, or the same one); the second pass is the spectral derivative of ITS input, mean removed
+    # and tapered, whatever the objects' metadata says about earlier steps
+    if len(out) == 1 and rng.random() < 0.6:
+        first = [np.array(getattr(out[0], comp).amplitude) for comp in ("ns", "ew", "vt")]
+        st2 = st if rng.random() < 0.3 else pre_settings(alpha, differentiate=True, fft=copy.deepcopy(st.fft_settings) if rng.random() < 0.5 else fft)
+        out2 = hvsrpy.preprocess(out, st2)
+        ctx.count("preprocess_calls")
+        n2 = st2.fft_settings["n"]
+        ok2, worst2 = len(out2) == 1, 0.0
+        for comp, x in zip(("ns", "ew", "vt"), first):
+            y = (x - np.mean(x)) * tap
+            Y = np.fft.fft(y, n2)
+            D = 2j * np.pi * np.fft.fftfreq(n2, dt) * Y
+            if n2 % 2 == 0:
+                D[n2 // 2] = 0.0
+            d = np.real(np.fft.ifft(D))[:L]
+            got = getattr(out2[0], comp).amplitude if ok2 else np.empty(0)
+            e = float(np.max(np.abs(got - d)) / max(np.max(np.abs(d)), 1e-300)) if got.shape == d.shape else np.inf
+            worst2 = max(worst2, e)
+            ok2 = ok2 and e <= 1e-8
+        ctx.check(ok2, "differentiation-analytic", "second pass (the output of a differentiating preprocess preprocessed again) "
+                  "differs from the spectral derivative of the mean-removed, tapered series it was given",
+                  mechanism="second-pass-on-earlier-output", worst_relative_error=worst2, L=L, dt=dt, alpha=alpha, n=n2,
+                  same_settings_object=st2 is st)
+        ctx.count("second_passes_judged")
     ctx.nontrivial(["diff", L, dt, alpha, n])
     ctx.state(["diff", "odd-fft-length" if n % 2 else "even-fft-length"])
 
